@@ -44,10 +44,13 @@ macro_rules! harness {
 
 pub mod h_bloom;
 pub mod h_cms;
+pub mod h_cuckoo;
 pub mod h_hll;
 pub mod h_mem;
 pub mod h_qf;
 pub mod h_reservoir;
+pub mod h_serde;
+pub mod h_sizing;
 pub mod h_tdigest;
 
 pub mod registry;
